@@ -353,7 +353,7 @@ static lp_id_t get_neighbor_star(lp_id_t from, struct topology *topology, enum t
 	}
 
 	if(from == 0)
-		return RandomRange(1, (int)(topology->regions - 1));
+		return topology->regions > 1 ? (lp_id_t)RandomRange(1, (int)(topology->regions - 1)) : INVALID_DIRECTION;
 	return 0;
 }
 
